@@ -151,6 +151,38 @@ CLAIMS = {
              "for all sizes. With caching enabled re-evaluation of trees with alternatives is known finding C05-F4.",
         tech="Lean 4 proof (semantics of the selectors by induction; RDR reference by induction on the surface program) + "
              "kernel-checked small-scope test of the construction + tree-shape and conclusion correspondence"),
+    'C04': dict(
+        text="(1) Domains: Iter.lean models HashedIterable (memo + lazily consumed remainder); c04_domain_independent: after any "
+             "history of full / abandoned / aborted evaluations the domains yield what fresh domains yield, and every L1 answer is "
+             "a function of that; c04_dup_domain (an object listed twice is yielded once, first and later evaluations). (2) Node "
+             "state: Lifecycle transliterates finally:_reset_after_evaluation_(completed); c04_lifecycle_clean for all histories. "
+             "(3) user data is not part of any model state. Correspondence: pools of queries over shared variables, histories of "
+             "full / take-k-then-close / raise-at-j-th-predicate-call, duplicated domain objects, user data snapshots.",
+        note=BASE_NOTE + "That a clean node state yields the fresh answer is the L1 semantics (caching off), tied to the code by the "
+             "history correspondence; caching on is subject to C05-F1. Two simultaneously suspended iterators of one query are "
+             "outside the property's operation list.",
+        tech="Lean 4 proof (invariants over operation histories) + history-level differential correspondence"),
+    'C05': dict(
+        text="PARTIAL. Proved: the cache index (C20: entries, check, exact retrieval on prefix-uniform tries, counter-witness) and "
+             "c05_single_key_uniform / c05_single_key_exact (every operator cache of a single-variable query stays prefix-uniform, "
+             "so its retrieval is exact after every history). NOT proved: that the evaluator's use of the index is transparent (no "
+             "cache-aware evaluator model). Decided by the differential check: caching on vs off vs oracle, two evaluations, over "
+             "joins (1-4 variables, shuffled declaration order), disjunctions over equal/different variable sets, negation, "
+             "sub-queries, for_all, flatten, rule trees, with the number of cache hits taken reported. The full statement is false "
+             "of the code: known findings C05-F1..F4.",
+        note=BASE_NOTE + "A difference is attributed to a finding only inside its scope and only when caching off gives the "
+             "specified rows; a mutation that changes behaviour inside a finding's scope in a way that is still wrong may be "
+             "masked (stated limit of not having the L2 model).",
+        tech="Lean 4 proof for the index and single-key caches + differential (cache on/off/oracle) correspondence"),
+    'C07': dict(
+        text="Iter.lean: generator-style evaluation over a memoised one-shot domain. c07_no_work_before_first, c07_prefix (at the "
+             "k-th result exactly the prefix ending at the k-th qualifying element has been pulled; list equality), c07_pull_once "
+             "(all histories: log ++ remainder = original sequence), c07_contents_invariant, c07_full_after_history. "
+             "Correspondence: logging one-shot generators, histories of create / take k / close / full, log length at EVERY "
+             "delivered result.",
+        note=BASE_NOTE + "That CPython suspends at yield and stops at close() is trusted (measured by the logging iterator). The "
+             "condition is represented by its truth per object (justified by c01/cond_at).",
+        tech="Lean 4 proof (induction on the domain list and on histories) + per-result differential correspondence"),
 }
 
 ALL = ['C%02d' % i for i in range(1, 21)]
